@@ -16,7 +16,8 @@ class C08(Prop):
             "plus a stride) and compared with the export of the full capture and with the ground truth; one evaluation = "
             "one exported prefix; non-trivial = a prefix whose export differs from the full export; distinct = (scenario, k)")
     reach = ["cut_inside_handshake", "cut_inside_spanning_record", "cut_after_key_change", "cut_between_flights",
-             "quic_world", "multi_conn", "four_tuple_reuse"]
+             "quic_world", "multi_conn", "four_tuple_reuse", "secrets_block_per_connection",
+             "quic_zero_rtt_before_retry"]
 
     def plan(self, tier):
         p = super().plan(tier)
@@ -29,7 +30,8 @@ class C08(Prop):
         R = Rng(seed, "C08")
         cfg = {"records_max": 6, "len_max": 3000, "isn_wrap": False, "seg_pct": 80,
                "net": {"delay": 25, "lost_before": 40, "dup": 30, "dup_rto": 40, "dup_late": 40, "_D": 3}, "net_pct": 60,
-               "quic_pct": 35, "quic": {"small": True, "migrate_pct": 20, "net": {"delay": 200, "dup": 80, "lost": 30, "_D": 3}}}
+               "quic_pct": 35, "quic": {"small": True, "migrate_pct": 20, "retry_pct": 30, "zero_rtt_pct": 40,
+                                        "net": {"delay": 200, "dup": 80, "lost": 30, "_D": 3}}}
         spec = gen.gen_mixed_world(R.fork("world"), cfg, nconn=R.weighted([(1, 50), (2, 35), (3, 15)]))
         spec["prop"] = "C08"
         spec["tier"] = tier
@@ -47,6 +49,10 @@ class C08(Prop):
             spec["conns"].append(b)
             spec["policy"] = "sequential"
             spec["reuse"] = True
+        if R.fork("keys").chance(25):
+            # the secrets travel inside the capture, one block per connection in front of its first packet (merged capture):
+            # a cut also cuts the later blocks away, a longer capture only ever adds secrets
+            spec["keychan"] = {"mode": "dsb", "dsb_per_conn": True}
         return spec
 
     def positions(self, n, tier):
@@ -87,6 +93,11 @@ class C08(Prop):
             out.count("reach:quic_world")
         if spec.get("reuse"):
             out.count("reach:four_tuple_reuse")
+        if spec.get("keychan", {}).get("dsb_per_conn"):
+            out.count("reach:secrets_block_per_connection")
+        for c in spec["conns"]:
+            if c["proto"] == "quic" and c["q"].get("retry") and c["q"].get("zero_rtt"):
+                out.count("reach:quic_zero_rtt_before_retry")
         prev = None
         eps = {}
         for c in spec["conns"]:
